@@ -1118,7 +1118,12 @@ func (v *VMValue) AttrGet(ctx *Context, name string) *VMValue {
 			p1 := v
 			p1x := a
 
-			for {
+			for depth := 0; ; depth++ {
+				if depth >= 64 {
+					// 原型链过长(通常是 a.__proto__ = a 这样的循环引用)，报错而不是无限查找
+					ctx.Error = errors.New("__proto__ 原型链层数过多，可能存在循环引用")
+					return nil
+				}
 				if p1, ok = p1x.Load("__proto__"); ok && p1.TypeId == VMTypeDict {
 					var exists bool
 					p1x = (*VMDictValue)(p1)
